@@ -331,6 +331,14 @@ def _pool():
                                            theta=0.2),
         'cann-multi': lambda: CircularAnnulus([(1.0, 1.3), (2.8, -0.3)],
                                               0.6, 1.7),
+        # several positions with the same sub-pixel phase (identical overlap
+        # arrays): results must still be per position
+        'circ-samephase': lambda: CircularAperture(
+            [(0.0, 1.0), (1.0, 1.0), (2.0, 2.0), (1.0, 0.0)], 1.1),
+        'cann-samephase': lambda: CircularAnnulus(
+            [(0.5, 0.5), (1.5, 1.5), (1.5, 0.5)], 0.4, 1.3),
+        'ell-samephase': lambda: EllipticalAperture(
+            [(1.0, 0.0), (1.0, 2.0), (2.0, 1.0)], 1.4, 0.8, theta=0.5),
     }
 
 
@@ -636,6 +644,11 @@ def cases(tier, seed):
             if tier == 'quick' and (i + j + seed) % 3 != 0:
                 continue
             real((3, 3), a, m, 'upto1')
+    for a in ('circ-samephase', 'cann-samephase', 'ell-samephase'):
+        for m in methods:
+            if not any(c.get('aper') == a and c.get('method') == m
+                       for c in cs):
+                real((3, 3), a, m, 'upto1')
     cs.append(dict(kind='table', name='table-forms-a', groups=[
         ['circ-in', 'ell-at-circ'], ['circ-multi', 'circ-multi-big'],
         ['ell-multi', 'ell-multi']]))
